@@ -32,14 +32,20 @@ func pickVol(r *vhlib.Rand, ids []int64) int64 {
 	return ids[r.Intn(len(ids))]
 }
 
+// windowWidth: how long before its end a contract's proof window opens (real contracts: 144 blocks)
+func windowWidth(r *vhlib.Rand) uint64 { return vhlib.Pick(r, uint64(1), 2, 3, 6, 10) }
+
 func (w *world) someHeight(r *vhlib.Rand) uint64 {
 	// boundary heights of contracts and temp sectors, else anything
 	var cands []uint64
+	// both ends of every proof window and a height inside it, each with its neighbours
 	for _, c := range w.c1 {
-		cands = append(cands, c.Revision.WindowEnd)
+		a, b := c.Revision.WindowStart, c.Revision.WindowEnd
+		cands = append(cands, a, b, b, a+uint64(r.Intn(int(b-a)+1)))
 	}
 	for _, c := range w.c2 {
-		cands = append(cands, c.ExpirationHeight)
+		a, b := c.ProofHeight, c.ExpirationHeight
+		cands = append(cands, a, b, b, a+uint64(r.Intn(int(b-a)+1)))
 	}
 	if len(cands) > 0 && r.Chance(2, 3) {
 		h := cands[r.Intn(len(cands))]
@@ -88,10 +94,12 @@ func genMeta(t *testing.T, tr *vhlib.Trace, r *vhlib.Rand, n int) {
 	}
 	nc1, nc2 := 1+r.Intn(3), 1+r.Intn(3)
 	for c := 1; c <= nc1; c++ {
-		w.doAddC1(c, uint64(20+10*r.Intn(3)), uint64(5*c))
+		we := uint64(20 + 10*r.Intn(3))
+		w.doAddC1W(c, we-windowWidth(r), we, uint64(5*c))
 	}
 	for c := 1; c <= nc2; c++ {
-		w.doAddC2(c, uint64(20+10*r.Intn(3)), uint64(5*c+2))
+		ex := uint64(20 + 10*r.Intn(3))
+		w.doAddC2P(c, ex-windowWidth(r), ex, uint64(5*c+2))
 	}
 	nroots := 6 + r.Intn(8)
 	for i := 0; i < n; i++ {
@@ -224,8 +232,8 @@ func genBatch(t *testing.T, tr *vhlib.Trace, r *vhlib.Rand, variant int) {
 	w := newWorld(t, tr, "meta", 0)
 	defer w.close()
 	tr.Line("reset mode=meta cache=0", "")
-	w.doAddC1(1, 50, 5)
-	w.doAddC2(1, 50, 5)
+	w.doAddC1W(1, 50-windowWidth(r), 50, 5)
+	w.doAddC2P(1, 50-windowWidth(r), 50, 5)
 	switch variant {
 	case 0: // forced removal dies between batches; some rows hold sectors
 		n := batchSize(r, 256)
@@ -338,8 +346,9 @@ func genData(t *testing.T, tr *vhlib.Trace, r *vhlib.Rand, n int, defects bool) 
 	for i := 0; i < nv; i++ {
 		w.doVmAdd(uint64(2 + r.Intn(4)))
 	}
-	w.doAddC1(1, uint64(30+10*r.Intn(2)), 5)
-	w.doAddC2(1, uint64(30+10*r.Intn(2)), 7)
+	we, ex := uint64(30+10*r.Intn(2)), uint64(30+10*r.Intn(2))
+	w.doAddC1W(1, we-windowWidth(r), we, 5)
+	w.doAddC2P(1, ex-windowWidth(r), ex, 7)
 	if r.Chance(1, 2) {
 		w.doConfirm(1, 1)
 	}
@@ -407,6 +416,47 @@ func genData(t *testing.T, tr *vhlib.Trace, r *vhlib.Rand, n int, defects bool) 
 			w.doTemp(k, uint64(20+r.Intn(30)))
 		}
 	}
+	// after expiry / prune: every root that was referenced before the step is read back through the
+	// VolumeManager (the driver knows which of them the model still counts as referenced); with the cache
+	// switched off for the reads now and then, so that the miss path (database + volume file) answers
+	readBackRefs := func(before []int) {
+		seen := map[int]bool{}
+		var roots []int
+		for _, k := range append(before, referenced()...) {
+			if !seen[k] {
+				seen[k] = true
+				roots = append(roots, k)
+			}
+		}
+		sort.Ints(roots)
+		if len(roots) == 0 {
+			return
+		}
+		old := w.cache
+		bypass := old > 0 && r.Chance(1, 2)
+		if bypass {
+			w.doCache(0)
+		}
+		for _, k := range roots {
+			w.doRead(k)
+		}
+		if bypass {
+			w.doCache(old)
+		}
+	}
+	reclaim := func(h uint64) {
+		before := referenced()
+		w.doReclaim(h)
+		acked = map[int]bool{}
+		readBackRefs(before)
+	}
+	prune := func() {
+		before := referenced()
+		w.doPrune()
+		if r.Chance(1, 2) {
+			readBackRefs(before)
+		}
+	}
 	for i := 0; i < n; i++ {
 		ids, total := w.liveVols()
 		switch x := r.Intn(100); {
@@ -433,7 +483,7 @@ func genData(t *testing.T, tr *vhlib.Trace, r *vhlib.Rand, n int, defects bool) 
 			write(r.Intn(nroots))
 			if r.Chance(1, 6) {
 				// the pruner runs while the upload is not yet referenced
-				w.doPrune()
+				prune()
 			}
 		case x < 30:
 			sync()
@@ -444,6 +494,27 @@ func genData(t *testing.T, tr *vhlib.Trace, r *vhlib.Rand, n int, defects bool) 
 				write(r.Intn(nroots))
 			}
 		case x < 45:
+			if refs := referenced(); len(refs) > 0 && len(w.writers) == 0 && r.Chance(1, 2) {
+				// one sector referenced from temp storage more than once (two RPC sessions uploaded the same data), the
+				// references expire at different heights; the chain passes the first expiration, not the last
+				k := refs[r.Intn(len(refs))]
+				e1 := uint64(12 + r.Intn(30))
+				e2 := e1 + 1 + uint64(r.Intn(8))
+				if r.Chance(1, 2) {
+					e1, e2 = e2, e1 // insertion order and expiry order are independent
+				}
+				w.doTemp(k, e1)
+				w.doTemp(k, e2)
+				if r.Chance(1, 3) {
+					w.doTemp(k, e2+uint64(r.Intn(3)))
+				}
+				lo, hi := e1, e2
+				if lo > hi {
+					lo, hi = hi, lo
+				}
+				reclaim(lo + uint64(r.Intn(int(hi-lo))))
+				break
+			}
 			k := r.Intn(nroots)
 			w.doStoreTemp(k, uint64(20+r.Intn(30)))
 			// referenced at once, not fsynced: no power loss until the next Sync (known finding otherwise)
@@ -468,11 +539,10 @@ func genData(t *testing.T, tr *vhlib.Trace, r *vhlib.Rand, n int, defects bool) 
 				acked = map[int]bool{}
 			}
 		case x < 70:
-			w.doPrune()
+			prune()
 		case x < 72:
 			if len(w.writers) == 0 {
-				w.doReclaim(w.someHeight(r))
-				acked = map[int]bool{}
+				reclaim(w.someHeight(r))
 			}
 		case x < 77:
 			if len(ids) > 0 && len(w.writers) == 0 {
@@ -813,9 +883,17 @@ func replay(t *testing.T, tr *vhlib.Trace, ops []vhlib.ParsedLine) {
 				w.doRmVol(v, op.Int("force") == 1)
 			}
 		case "addc1":
-			w.doAddC1(op.Int("c"), op.U64("wend"), op.U64("neg"))
+			if op.Args["wstart"] != "" {
+				w.doAddC1W(op.Int("c"), op.U64("wstart"), op.U64("wend"), op.U64("neg"))
+			} else {
+				w.doAddC1(op.Int("c"), op.U64("wend"), op.U64("neg"))
+			}
 		case "addc2":
-			w.doAddC2(op.Int("c"), op.U64("exp"), op.U64("neg"))
+			if op.Args["proof"] != "" {
+				w.doAddC2P(op.Int("c"), op.U64("proof"), op.U64("exp"), op.U64("neg"))
+			} else {
+				w.doAddC2(op.Int("c"), op.U64("exp"), op.U64("neg"))
+			}
 		case "reject":
 			w.doReject(op.U64("h"))
 		case "confirm":
